@@ -199,7 +199,8 @@ def run(chk):
     maxov = 2 if quick else 4
     chk.rule = ("accepted random texts of the family schemas x override lists of 1..%d specifiers (section components by "
                 "name or type, mixed case, depth 0..3, declared / wildcard / undeclared keys, convertible and unconvertible "
-                "values, values with '$', missing sections, malformed specifiers); each paired with the hand-edited text; "
+                "values, values with '$', missing sections, malformed specifiers), a third of them with the text cut into "
+                "included files; each paired with the hand-edited text; "
                 "non-trivial = the override list is well-formed and addresses an existing section" % maxov)
     pre = scenario.Scenarios(docs)
     bases = []
@@ -229,7 +230,16 @@ def run(chk):
             else:
                 meta = {"nontrivial": True, "shape": "malformed-specifier", "expect_reject": True,
                         "expect_kind": ["syntax"]}
-            sc.add(sid, {"d/main.conf": t}, opts=ovs, twin=twin, meta=meta)
+            files = {"d/main.conf": t}
+            if rng.random() < 0.3:
+                # the overridden text spread over included files: the option bags travel with the sections,
+                # wherever their lines are read from (the edited twin stays in one piece)
+                from . import c06
+                c = c06.cut(rng, files, rng.choice([1, 2]))
+                if c is not None:
+                    files = {k: v for k, v in c[0].items()}
+                    meta = dict(meta, resolve=c[2], cut=True)
+            sc.add(sid, files, opts=ovs, twin=twin, meta=meta)
     outs = sc.run_spec(chk)
     from ..core import MachineryError
     for it, o in zip(sc.items, outs):
